@@ -95,7 +95,26 @@ func (c *Ctx) importKeyRule(rule string) {
 	for _, s := range c.CallsTo("(" + pUtil + "ImportNames).LookupPath") {
 		n++
 		t := c.O.Of(s.Args()[1])
-		r.Check(rule, FnKey(s.Fn)+":LookupPath-arg", c.Pos(s.Pos()), !fromTypesName(t), "LookupPath (name → path, for notation qualifiers) is asked with text taken from a go/types package: "+t.String())
+		ok := !fromTypesName(t)
+		if !ok {
+			// one other question is legitimate: “is this declared package name already the name of an import?” – asked by the
+			// nameability test before a package's own name is written as a qualifier; only the found-flag may be used
+			onlyFlag := false
+			if v, isV := s.Instr.(ssa.Value); isV && v.Referrers() != nil {
+				onlyFlag = true
+				for _, rf := range *v.Referrers() {
+					if ex, isEx := rf.(*ssa.Extract); isEx && ex.Index == 0 && ex.Referrers() != nil && len(*ex.Referrers()) > 0 {
+						onlyFlag = false
+					}
+				}
+			}
+			for _, p := range c.nameablePredicates() {
+				if p == s.Fn && onlyFlag && t.IsCallTo("(*go/types.Package).Name") {
+					ok = true
+				}
+			}
+		}
+		r.Check(rule, FnKey(s.Fn)+":LookupPath-arg", c.Pos(s.Pos()), ok, "LookupPath (name → path, for notation qualifiers) is asked with text taken from a go/types package: "+t.String())
 	}
 	r.Floor(rule, "import-table key uses", n, 5)
 }
